@@ -49,7 +49,8 @@ void
 assign_probes(Case &c, int cap)
 {
   const int n = static_cast<int>(c.threads.size());
-  const int style = weighted({3, 3, 2, 2, 2, 3});
+  const int style = weighted({3, 3, 2, 2, 2, 3, 2});
+  const uint64_t cl_a = static_cast<uint64_t>(pick(0, cap - 1)), cl_b = static_cast<uint64_t>(pick(0, cap - 1));
   const uint64_t base = static_cast<uint64_t>(pick(0, cap - 1));
   for (int t = 0; t < n; t++) {
     switch (style) {
@@ -57,6 +58,7 @@ assign_probes(Case &c, int cap)
       case 1: c.threads[t].probe = static_cast<uint64_t>(t); break;              // distinct
       case 2: c.threads[t].probe = static_cast<uint64_t>(cap - 1); break;        // wrap-around start
       case 3: c.threads[t].probe = *rc::gen::arbitrary<uint64_t>(); break;       // arbitrary hash
+      case 6: c.threads[t].probe = chance(50) ? cl_a : cl_b; break;              // two clusters of colliding threads anywhere in the table
       case 5: c.threads[t].probe = static_cast<uint64_t>(pick(0, cap - 1)) + static_cast<uint64_t>(cap) * static_cast<uint64_t>(pick(0, cap + 2)); break;  // a + cap*b: every (hash % cap, hash / cap % cap) class
       default: c.threads[t].probe = static_cast<uint64_t>(pick(0, cap)); break;  // near collisions
     }
@@ -221,6 +223,98 @@ gen_epoch_case(const std::string &p, int cap)
   add_schedule(c, 6, p != "C17");
   return c;
 }
+// ---- a scenario template for the epoch profiles: a *late reservation*. A worker is stalled somewhere inside
+// CreateEpochGuard / GetProtectedEpochs (one preemption at a generated step, a second one 1-3 steps later) while the
+// coordinator forwards across one or two 256-epoch node boundaries, and a long-lived holder keeps a guard (and its
+// list) in an old node. Everything else (positions, lengths, who is pre-empted where) is generated.
+Case
+gen_late_reservation_case(const std::string &p, int cap)
+{
+  Case c;
+  c.cap = cap;
+  c.use_epoch = true;
+  const int nextra = cap >= 3 ? pick(0, std::min(2, cap - 2)) : 0;
+  c.threads.resize(3 + nextra);
+  {
+    auto &ops = c.threads[0].ops;
+    if (cap >= 3 && chance(60)) ops.push_back(mk(GETID));
+    switch (weighted({3, 3, 2})) {
+      case 0: break;
+      case 1: ops.push_back(mk(FWD_BULK, static_cast<uint32_t>(256 * pick(1, 3) - pick(0, 3)))); break;
+      default: ops.push_back(mk(FWD_BULK, static_cast<uint32_t>(pick(1, 300)))); break;
+    }
+    ops.push_back(mk(YIELD));
+    const int stalls = pick(1, 2);
+    for (int k = 0; k < stalls; k++) {
+      ops.push_back(mk(FWD_BULK, static_cast<uint32_t>(weighted({4, 3, 1}) == 0 ? pick(257, 300) : weighted({3, 1}) == 0 ? pick(500, 620) : pick(1, 40))));
+      if (chance(30)) ops.push_back(mk(chance(50) ? READ_CUR : READ_MIN));
+      ops.push_back(mk(YIELD));
+      if (chance(70)) ops.push_back(mk(FWD, static_cast<uint32_t>(pick(1, 3))));
+      if (chance(50)) ops.push_back(mk(YIELD));
+    }
+    ops.push_back(mk(FWD, static_cast<uint32_t>(pick(1, 3))));
+    ops.push_back(mk(YIELD));
+    ops.push_back(mk(FWD, static_cast<uint32_t>(pick(1, 2))));
+  }
+  {
+    auto &ops = c.threads[1].ops;  // the holder
+    if (chance(40)) ops.push_back(mk(GETID));
+    if (chance(25)) {
+      ops.push_back(mk(GUARD_NEW, static_cast<uint32_t>(pick(0, 1))));
+      ops.push_back(mk(GUARD_END, static_cast<uint32_t>(pick(0, 2))));
+    }
+    ops.push_back(mk(GUARD_NEW, static_cast<uint32_t>(weighted({1, 3}))));
+    const int n = pick(2, 6);
+    for (int k = 0; k < n; k++) {
+      switch (weighted({4, 3, 1, 1, 1})) {
+        case 0: ops.push_back(mk(YIELD, static_cast<uint32_t>(weighted({3, 1}) == 0 ? 0 : pick(2, 30)))); break;
+        case 1: ops.push_back(mk(CHECK_LIST)); break;
+        case 2: ops.push_back(mk(READ_MIN)); break;
+        case 3: ops.push_back(mk(GUARD_MOVE, static_cast<uint32_t>(pick(0, 1)))); break;
+        default: ops.push_back(mk(READ_CUR)); break;
+      }
+    }
+    if (chance(75)) ops.push_back(mk(YIELD, static_cast<uint32_t>(pick(5, 40))));  // usually outlasts the coordinator's script
+    ops.push_back(mk(CHECK_LIST));
+    if (chance(80)) ops.push_back(mk(GUARD_END, static_cast<uint32_t>(pick(0, 2))));
+  }
+  for (int t = 2; t < 3 + nextra; t++) {
+    auto &ops = c.threads[t].ops;  // the stalled worker (and bystanders of the same shape)
+    if (chance(50)) ops.push_back(mk(chance(50) ? GETID : GETHB));
+    if (chance(65)) ops.push_back(mk(YIELD, static_cast<uint32_t>(pick(0, 2))));  // enter after the coordinator moved on
+    const int rounds = pick(1, 2);
+    for (int r = 0; r < rounds; r++) {
+      ops.push_back(mk(GUARD_NEW, static_cast<uint32_t>(pick(0, 1))));
+      const int inner = pick(0, 3);
+      for (int k = 0; k < inner; k++) {
+        switch (weighted({3, 2, 1, 1})) {
+          case 0: ops.push_back(mk(YIELD)); break;
+          case 1: ops.push_back(mk(CHECK_LIST)); break;
+          case 2: ops.push_back(mk(GUARD_REFRESH, static_cast<uint32_t>(pick(0, 1)))); break;
+          default: ops.push_back(mk(READ_CUR)); break;
+        }
+      }
+      if (chance(85)) ops.push_back(mk(GUARD_END, static_cast<uint32_t>(pick(0, 2))));
+      if (chance(30)) ops.push_back(mk(READ_CUR));
+    }
+  }
+  assign_probes(c, cap);
+  c.threads[0].probe = static_cast<uint64_t>(pick(0, cap - 1));
+  if (chance(25)) {
+    c.threads[2].sk = vsched::kAfterBody;  // the worker re-uses a slot whose previous owner is gone
+    c.threads[2].dep = 1;
+  }
+  // the stall: two close preemptions of the worker, both handing the processor to the coordinator
+  for (int t = 2; t < 3 + nextra; t++) {
+    if (t > 2 && chance(50)) continue;
+    const int x = chance(70) ? pick(0, 18) : pick(0, 10 * static_cast<int>(c.threads[t].ops.size()) + 8);
+    c.sched.preempts.push_back({t, static_cast<uint32_t>(x), 0});
+    if (chance(85)) c.sched.preempts.push_back({t, static_cast<uint32_t>(x + pick(1, 3)), chance(80) ? 0 : pick(0, 2)});
+  }
+  if (chance(30)) c.sched.preempts.push_back({pick(0, 1), static_cast<uint32_t>(pick(0, 60)), pick(0, 2)});
+  (void)p;
+  return c;
+}
 }  // namespace
 
 namespace threadgen
@@ -229,7 +323,11 @@ Case
 generate(const std::string &profile, int cap, uint64_t seed, uint64_t index)
 {
   const bool id_only = profile == "C05" || profile == "C14" || profile == "C15";
-  const auto g = rc::gen::exec([=] { return id_only ? gen_id_case(profile, cap) : gen_epoch_case(profile, cap); });
+  const auto g = rc::gen::exec([=] {
+    if (id_only) return gen_id_case(profile, cap);
+    if (cap >= 2 && chance(profile == "C17" ? 14 : 8)) return gen_late_reservation_case(profile, cap);
+    return gen_epoch_case(profile, cap);
+  });
   const rc::Random rnd(wk::splitmix(seed ^ wk::splitmix(index + 0x7654321ULL)));
   return g(rnd, 100).value();
 }
